@@ -4,6 +4,7 @@ Oracle: engine-side finite differences (esim `fdsweep`): for every coordinate of
 E(x +- h e_k), E(x +- h/2 e_k) through the real calc(), Richardson-extrapolated, against the force
 the engine received.  Purity guard: base point re-evaluated after the sweep must be bit-identical.
 """
+import json
 import math
 import re
 import os
@@ -110,8 +111,24 @@ def gen_case(rng, idx, ctype, fit, bias, cell, combo=None, composite=False, opts
             coeff = round(rng.uniform(-3, 3), 3) or 2.0
         cv = corpus.make_colvar(rng, sysm, pool, "cv1", ctype, opts, extra, coeff=coeff,
                                 exp=(rng.choice([2, 3]) if (r < 0.15 and not opts.get("period") and ctype not in ("distanceVec", "distanceDir", "orientation", "distancePairs", "cartesian")) else None))
+    flags = None
+    if combo and rng.random() < 0.5:
+        # some components switched off at run time (cvcflags): the variable, its energy and its forces are those of the
+        # remaining components; patterns with an active component after an inactive one included
+        n = len(combo)
+        while True:
+            flags = [rng.choice([0, 1]) for _ in range(n)]
+            if 0 < sum(flags) < n:
+                break
+        fit = "cvcflags_" + "".join(str(f) for f in flags)
     return dict(idx=idx, sysm=sysm, cv=cv, bias=bias, ctype=cv["ctype"], fit=fit, cell=cell,
-                pos2=jitter(rng, sysm["pos"], 0.25))
+                pos2=jitter(rng, sysm["pos"], 0.25), cvcflags=flags)
+
+
+def flags_line(case):
+    if not case.get("cvcflags"):
+        return ""
+    return "script %s\n" % json.dumps(["cv", "colvar", "cv1", "cvcflags", " ".join(str(f) for f in case["cvcflags"])])
 
 
 def scenario_pass0(case):
@@ -136,7 +153,7 @@ def write_files(case, wd):
 
 def scenario_pass1(case):
     s = corpus.scenario_header(case["sysm"])
-    s += "module\nconfig <<EOC\n" + case["cv"]["text"] + "\nEOC\ninit\n"
+    s += "module\nconfig <<EOC\n" + case["cv"]["text"] + "\nEOC\ninit\n" + flags_line(case)
     s += corpus.pos_line(case["sysm"]["pos"]) + "\nstep\n"
     s += corpus.pos_line(case["pos2"]) + "\nstep\n"
     return s
@@ -151,7 +168,7 @@ def scenario_pass2(rng, case, val):
     case["bias_text"] = bt
     s = corpus.scenario_header(case["sysm"], extra="temp 300.0\ndt 1.0")
     s += "emit cv off\nemit bias off\n"
-    s += "module\nconfig <<EOC\n" + case["cv"]["text"] + "\n" + bt + "EOC\ninit\n"
+    s += "module\nconfig <<EOC\n" + case["cv"]["text"] + "\n" + bt + "EOC\ninit\n" + flags_line(case)
     pos = case["sysm"]["pos"]
     if case["bias"] in ("meta", "opes"):
         # deposit a few hills/kernels around the base geometry, then sweep at an odd step
@@ -171,7 +188,7 @@ def scenario_pass2(rng, case, val):
             case["bias_text"] = bt + "# restarted with:\n" + bt2
             s += "save c01st.colvars.state\ndelete\n"
             s += corpus.scenario_header(case["sysm"], extra="temp 300.0\ndt 1.0") + "emit cv off\nemit bias off\n"
-            s += "module\nconfig <<EOC\n" + case["cv"]["text"] + "\n" + bt2 + "EOC\ninprefix c01st\ninit\n"
+            s += "module\nconfig <<EOC\n" + case["cv"]["text"] + "\n" + bt2 + "EOC\ninprefix c01st\ninit\n" + flags_line(case)
             case["bias"] = "meta_restart"
         s += corpus.pos_line(pos) + "\n"
         s += "fdsweep %s cont\n" % fnum(H)
